@@ -9,7 +9,7 @@ HOOK_COMMITS = ["6e1d5dd", "092527b", "70942f2", "7e1ebbc", "243e756", "1deda3c"
 
 CHECKS = {
     "C04": dict(
-        text="Partial: decides (a) every solver configuration / start density / restart history reaches the same result class per geometry. TLC enumerates the walks of SCFHistory (sequences of solves over neighbouring geometries x start density {cold, density of the previous solve, perturbed} x 14 solver configurations incl. SP2 down to below the threshold floor, Pulay, fixed/adaptive mixing, the Krylov (KSA) solver, UHF singlet, loose/tight thresholds); PathIndependent holds on the model given C03's FlagTruthful and the premise of a single stable closed-shell solution. Exported walks are replayed on the real code, alone and as rows of mixed batches whose members converge at different iterations; all unflagged solves of one row at one geometry must agree in energy, forces, charges and occupied orbital energies within K*max(eps_i,eps_j)+floor.",
+        text="Partial: decides (a) every solver configuration / start density / restart history reaches the same result class per geometry. TLC enumerates the walks of SCFHistory (sequences of solves over neighbouring geometries x start density {cold, density of the previous solve, perturbed} x 16 solver / force-method configurations incl. analytical and semi-numerical gradients, SP2 down to below the threshold floor, Pulay, fixed/adaptive mixing, the Krylov (KSA) solver, UHF singlet, loose/tight thresholds); PathIndependent holds on the model given C03's FlagTruthful and the premise of a single stable closed-shell solution. Exported walks are replayed on the real code, alone and as rows of mixed batches whose members converge at different iterations; all unflagged solves of one row at one geometry must agree in energy, forces, charges and occupied orbital energies within K*max(eps_i,eps_j)+floor.",
         note="Monotone approach under tightening is monitored along threshold ladders 1e-4..1e-10 (seven solver families) with the rule deviation <= max(previous deviation, K x new threshold). K is calibrated (largest observed ratio recorded in the evidence); premise: small near-equilibrium closed-shell molecules. Each solve is also covered by C03's residual predicates.",
         tech="explicit TLA+ model (SCFHistory) enumerated by TLC; exported walks replayed on the real solvers, result classes compared",
         ref="DESIGN.md §4 C04",
